@@ -99,6 +99,18 @@ string showMap(const map<string, string>& m)
 }
 
 // ================================================================== 1. numbers
+// non-default format characters: only the decimal separator, only the exponent character, both (two spellings each)
+struct NumChars { char dec, sci; };
+const NumChars kAltChars[] = { { ',', 'e' }, { '.', 'E' }, { ',', 'E' }, { ';', 'e' }, { '.', 'd' }, { ';', 'd' } };
+const size_t kNAltChars = sizeof(kAltChars) / sizeof(kAltChars[0]);
+// the same spelling with other format characters ('.' -> dec, 'e' -> sci)
+string translit(const string& s, char dec, char sci)
+{
+  string t = s;
+  for (char& ch : t) { if (ch == '.') ch = dec; else if (ch == 'e') ch = sci; }
+  return t;
+}
+
 // ---- x -> toString(x,17) -> toDouble / toInt
 double genDouble(vrt::Rng& r, int kind)
 {
@@ -148,6 +160,18 @@ void caseNumberRoundTrip(vrt::Case& c)
     vrt::expect(TextTools::isDecimalNumber(s), "format.double-parses", cls + ":isDecimalNumber", [&] { return "isDecimalNumber(" + q(s) + ") is false for a formatted double"; });
     double z = TextTools::to<double>(s), w = TextTools::fromString<double>(s);
     vrt::expect(z == x && w == x, "format.double-roundtrip", cls + ":to<double>", [&] { return "toString(" + vrt::hexd(x) + ",17)=" + q(s) + " to<double>=" + vrt::hexd(z) + " fromString<double>=" + vrt::hexd(w); });
+    // the same 17-digit spelling written with other format characters denotes the same number in the grammar with those characters
+    for (size_t a = 0; a < 3; ++a)
+    {
+      const NumChars& nc = kAltChars[(static_cast<size_t>(j) + a * 2 + (a == 2 ? c.index : 0)) % kNAltChars];
+      string sa = translit(s, nc.dec, nc.sci);
+      string tag = string(":dec=") + nc.dec + ":sci=" + nc.sci;
+      double ya = 0;
+      vrt::Outcome oa = vrt::capture([&] { ya = TextTools::toDouble(sa, nc.dec, nc.sci); });
+      if (vrt::expect(oa.returned(), "format.double-parses", cls + tag, [&] { return "toString(" + vrt::hexd(x) + ",17)=" + q(s) + " spelled " + q(sa) + " then toDouble(.,'" + nc.dec + "','" + nc.sci + "') " + oa.text(); }))
+        vrt::expect(ya == x, "format.double-roundtrip", cls + ":toDouble" + tag, [&] { return "toString(" + vrt::hexd(x) + ",17)=" + q(s) + " spelled " + q(sa) + " parsed back by toDouble(.,'" + nc.dec + "','" + nc.sci + "') as " + vrt::hexd(ya); });
+      vrt::expect(TextTools::isDecimalNumber(sa, nc.dec, nc.sci), "format.double-parses", cls + ":isDecimalNumber" + tag, [&] { return "isDecimalNumber(" + q(sa) + ",'" + nc.dec + "','" + nc.sci + "') is false for a formatted double"; });
+    }
   }
   for (int j = 0; j < 40; ++j)
   {
@@ -169,6 +193,14 @@ void caseNumberRoundTrip(vrt::Case& c)
       vrt::expect(y == i, "format.int-roundtrip", cls + ":toInt", [&] { return "toString(" + str(i) + ")=" + q(s) + " parsed back as " + str(y); });
     int z = TextTools::to<int>(s), w = TextTools::fromString<int>(s);
     vrt::expect(z == i && w == i && TextTools::isDecimalInteger(s), "format.int-roundtrip", cls + ":to<int>", [&] { return "toString(" + str(i) + ")=" + q(s) + " to<int>=" + str(z) + " fromString<int>=" + str(w) + " isDecimalInteger=" + str(TextTools::isDecimalInteger(s)); });
+    {
+      // an exponent-free spelling is the same integer whatever the exponent character is
+      char sci = kAltChars[1 + static_cast<size_t>(j) % (kNAltChars - 1)].sci;
+      int ya = 0;
+      vrt::Outcome oa = vrt::capture([&] { ya = TextTools::toInt(s, sci); });
+      if (vrt::expect(oa.returned(), "format.int-parses", cls + ":sci=" + sci, [&] { return "toString(" + str(i) + ")=" + q(s) + " then toInt(.,'" + sci + "') " + oa.text(); }))
+        vrt::expect(ya == i && TextTools::isDecimalInteger(s, sci), "format.int-roundtrip", cls + ":toInt:sci=" + sci, [&] { return "toString(" + str(i) + ")=" + q(s) + " parsed back by toInt(.,'" + sci + "') as " + str(ya) + " isDecimalInteger=" + str(TextTools::isDecimalInteger(s, sci)); });
+    }
   }
 }
 
@@ -289,6 +321,7 @@ void checkNumberString(const string& s, char dec, char sci)
 
 const char* grammarAlphabet(int tier) { return tier == 0 ? "019-+.e" : "01259-+.e"; }
 const size_t kGrammarPrefix = 3, kGrammarMaxLen = 6;
+const u64 kAltStride = 3; // every third string of the exhaustive sweep is also checked in a non-default spelling
 u64 grammarCases(int tier)
 {
   size_t k = strlen(grammarAlphabet(tier));
@@ -310,6 +343,7 @@ void caseGrammarExhaustive(vrt::Case& c)
       string s = nthString(A, i);
       if (vrt::replaying()) vrt::note(q(s));
       checkNumberString(s, '.', 'e');
+      for (size_t a = 0; a < kNAltChars; ++a) checkNumberString(translit(s, kAltChars[a].dec, kAltChars[a].sci), kAltChars[a].dec, kAltChars[a].sci);
     }
     return;
   }
@@ -324,6 +358,12 @@ void caseGrammarExhaustive(vrt::Case& c)
     string s = prefix + nthString(A, i);
     if (vrt::replaying()) vrt::note(q(s));
     checkNumberString(s, '.', 'e');
+    // the same spelling with non-default format characters (rotating: separator only, exponent character only, both)
+    if (i % kAltStride == c.index % kAltStride)
+    {
+      const NumChars& nc = kAltChars[(i / kAltStride + c.index) % kNAltChars];
+      checkNumberString(translit(s, nc.dec, nc.sci), nc.dec, nc.sci);
+    }
     if (vrt::violationsInCase() > 40) return;
   }
 }
@@ -360,7 +400,7 @@ string genNumberLike(vrt::Rng& r, char dec, char sci)
 
 void caseGrammarRandom(vrt::Case& c)
 {
-  vrt::describe("grammar-random", "20 generated number-like strings (grammatical numbers with 0..3 random edits), default and alternative decimal/exponent characters");
+  vrt::describe("grammar-random", "32 generated number-like strings (grammatical numbers with 0..3 random edits), default and non-default decimal/exponent characters in all four combinations");
   for (int j = 0; j < 20; ++j)
   {
     bool alt = j % 4 == 3;
@@ -368,6 +408,17 @@ void caseGrammarRandom(vrt::Case& c)
     string s = genNumberLike(c.rng, dec, sci);
     if (vrt::replaying()) vrt::note(q(s));
     checkNumberString(s, dec, sci);
+  }
+  // all combinations default / non-default of the two format characters; every fourth string is written for
+  // other characters than the ones it is checked with (the default ones or another configuration)
+  for (size_t j = 0; j < 12; ++j)
+  {
+    const NumChars& nc = kAltChars[(j + c.index) % kNAltChars];
+    NumChars gen = nc;
+    if (j % 4 == 3) gen = c.rng.chance(0.5) ? NumChars{ '.', 'e' } : kAltChars[c.rng.below(kNAltChars)];
+    string s = genNumberLike(c.rng, gen.dec, gen.sci);
+    if (vrt::replaying()) vrt::note(q(s) + " with '" + nc.dec + "','" + nc.sci + "'");
+    checkNumberString(s, nc.dec, nc.sci);
   }
 }
 
@@ -1655,7 +1706,7 @@ int main(int argc, char** argv)
   vrt::Meta meta;
   meta.rule = "number-roundtrip: doubles (random bit patterns, decimals, powers of ten, denormals, extremes) and ints -> toString(x,17) -> toDouble/toInt/to<T>/fromString<T>; "
       "grammar-exhaustive: every string over {0,1,9,-,+,.,e} (thorough: {0,1,2,5,9,-,+,.,e}) up to length 6 against a recogniser of -?(d+(.d*)?|.d+)(e[+-]?d+)? / -?d+(e+?d+)? with strtod as value; "
-      "grammar-random: grammatical numbers with 0..3 random edits, also with ',' and 'E' as decimal/exponent characters; tokenizer-exhaustive: every string over {a,=,(,comma,space} up to length 6 "
+      "grammar-random: grammatical numbers with 0..3 random edits, also with non-default decimal/exponent characters (',' ';' / 'E' 'd') in all four combinations default/non-default, incl. strings written for other characters than the ones passed; every third string of grammar-exhaustive and every formatted number of number-roundtrip is also checked in a non-default spelling; tokenizer-exhaustive: every string over {a,=,(,comma,space} up to length 6 "
       "(thorough 8) x 6 delimiter strings x solid x allowEmptyTokens, tokenizer-random: strings of length 7..24; nested-*: the same over {a,(,),comma,space} x 3 delimiter strings x solid; "
       "keyval: procedures with 0..6 arguments (values: numbers, names, lists, nested procedures one level deep) in three layouts; wildcard: every pattern over {a,b,*} up to length 8, one case per pattern, "
       "against every name up to length 6 (thorough: 8; quick adds 400 sampled names of length 7..8 per pattern), three APIs; variables: maps of 1..7 variables with chains, cycles and undefined references; "
